@@ -42,6 +42,188 @@ type libHmm struct {
 	clone *generic.Hmm
 	v     *vd.Hmm
 	m     *md.Hmm
+	tol   float64 // comparison tolerance of this model (tolOf)
+	// what the configuration calls did to the object (configure)
+	defects []cfgDefect
+}
+
+// cfgDefect: an observation made on the object itself while it was constructed and
+// configured.  fatal: the object is not a model at all (NaN / unnormalised / unrestricted
+// last transition), the case sweep is pointless.
+type cfgDefect struct {
+	quantity, what, msg string
+	fatal               bool
+}
+
+func (l *libHmm) fatal() bool {
+	for _, d := range l.defects {
+		if d.fatal {
+			return true
+		}
+	}
+	return false
+}
+
+func kindSuffix(kind string) string {
+	if kind == kindPlain {
+		return ""
+	}
+	return "[" + kind + "]"
+}
+
+func newTransition(mo Model, tr ad.Matrix) (generic.TransitionMatrix, error) {
+	switch mo.Kind {
+	case kindConstrained:
+		return generic.NewChmmTransitionMatrix(tr, libConstraints(mo.Constraints), false)
+	case kindHierarchical:
+		if mo.Tree == nil || !mo.Tree.lib().Check(mo.M) {
+			return nil, fmt.Errorf("harness: invalid tree")
+		}
+		return generic.NewHhmmTransitionMatrix(tr, mo.Tree.lib(), false)
+	}
+	return generic.NewHmmTransitionMatrix(tr, false)
+}
+
+func readLogM(a ad.Matrix, m int) [][]float64 {
+	out := make([][]float64, m)
+	for i := range out {
+		out[i] = make([]float64, m)
+		for j := range out[i] {
+			out[i][j] = a.At(i, j).GetFloat64()
+		}
+	}
+	return out
+}
+
+func readLogV(a ad.Vector) []float64 {
+	out := make([]float64, a.Dim())
+	for i := range out {
+		out[i] = a.At(i).GetFloat64()
+	}
+	return out
+}
+
+func sameBits(a, b []float64) bool {
+	if len(a) != len(b) {
+		return false
+	}
+	for i := range a {
+		if math.Float64bits(a[i]) != math.Float64bits(b[i]) {
+			return false
+		}
+	}
+	return true
+}
+
+func sameBitsM(a, b [][]float64) bool {
+	if len(a) != len(b) {
+		return false
+	}
+	for i := range a {
+		if !sameBits(a[i], b[i]) {
+			return false
+		}
+	}
+	return true
+}
+
+func expM(a [][]float64) [][]float64 {
+	out := make([][]float64, len(a))
+	for i := range a {
+		out[i] = make([]float64, len(a[i]))
+		for j := range a[i] {
+			out[i][j] = math.Exp(a[i][j])
+		}
+	}
+	return out
+}
+
+// configure applies the caller's start / final restriction to a freshly constructed
+// object and records what these calls did to it, observed through the public fields
+// (Pi, Tr, Tf) and GetParameters:
+//   - right after construction the base transition matrix and pi must be the supplied
+//     ones (the harness supplies normalised parameters);
+//   - SetStartStates / SetFinalStates must leave the base transition matrix untouched
+//     (the final restriction concerns the LAST transition only), SetFinalStates must leave
+//     pi untouched;
+//   - the last-transition matrix must be a model: no NaN, no mass outside the final
+//     states, unit row sums.
+//
+// None of these readings is used by the reference; they are assertions on the object.
+func (l *libHmm) configure(mo Model) error {
+	g, m := l.g, mo.M
+	add := func(fatal bool, quantity, what, format string, a ...interface{}) {
+		for _, d := range l.defects {
+			if d.quantity == quantity && d.what == what {
+				return
+			}
+		}
+		l.defects = append(l.defects, cfgDefect{quantity, what, fmt.Sprintf(format, a...), fatal})
+	}
+	tr0 := readLogM(g.Tr, m)
+	pi0 := readLogV(g.Pi)
+	par0 := readLogV(g.GetParameters())
+	for i := 0; i < m; i++ {
+		if p := math.Exp(pi0[i]); math.IsNaN(p) {
+			add(true, "construct", "pi-nan", "pi read back after construction %v, supplied %v", expM([][]float64{pi0})[0], mo.Pi)
+		} else if math.Abs(p-mo.Pi[i]) > l.tol || (mo.Pi[i] == 0 && p != 0) {
+			add(false, "construct", "pi-differs-from-supplied", "pi read back after construction %v, supplied (normalised) %v", expM([][]float64{pi0})[0], mo.Pi)
+		}
+		for j := 0; j < m; j++ {
+			if p := math.Exp(tr0[i][j]); math.IsNaN(p) {
+				add(true, "construct", "transition-matrix-nan", "transition matrix read back after construction %v, supplied (normalised, ties hold) %v", expM(tr0), mo.Tr)
+			} else if math.Abs(p-mo.Tr[i][j]) > l.tol || (mo.Tr[i][j] == 0 && p != 0) {
+				add(false, "construct", "transition-matrix-differs-from-supplied", "transition matrix read back after construction %v, supplied (normalised, ties hold) %v", expM(tr0), mo.Tr)
+			}
+		}
+	}
+	if l.fatal() {
+		return nil // not a model already; whatever the configuration calls do follows from it
+	}
+	if err := g.SetStartStates(mo.Start); err != nil {
+		return err
+	}
+	tr1 := readLogM(g.Tr, m)
+	pi1 := readLogV(g.Pi)
+	if !sameBitsM(tr0, tr1) {
+		add(false, "configure", "SetStartStates-changes-transition-matrix", "Tr before %v, after SetStartStates(%v) %v", expM(tr0), mo.Start, expM(tr1))
+	}
+	if err := g.SetFinalStates(mo.Final); err != nil {
+		return err
+	}
+	tr2 := readLogM(g.Tr, m)
+	pi2 := readLogV(g.Pi)
+	par2 := readLogV(g.GetParameters())
+	if !sameBitsM(tr1, tr2) {
+		add(false, "configure", "SetFinalStates-changes-transition-matrix", "Tr before %v, after SetFinalStates(%v) %v", expM(tr1), mo.Final, expM(tr2))
+	}
+	if !sameBits(pi1, pi2) {
+		add(false, "configure", "SetFinalStates-changes-pi", "Pi before %v, after SetFinalStates(%v) %v", pi1, mo.Final, pi2)
+	}
+	if len(par0) != m+m*m || len(par2) != m+m*m {
+		add(false, "configure", "GetParameters-shape", "GetParameters has %d / %d entries for %d states", len(par0), len(par2), m)
+	} else if !sameBits(par0[m:], par2[m:]) {
+		add(false, "configure", "configuration-changes-transition-parameters", "transition part of GetParameters before %v, after SetStartStates(%v)/SetFinalStates(%v) %v", par0[m:], mo.Start, mo.Final, par2[m:])
+	}
+	// the last-transition matrix
+	tf := readLogM(g.Tf, m)
+	for i := 0; i < m; i++ {
+		sum := 0.0
+		for j := 0; j < m; j++ {
+			p := math.Exp(tf[i][j])
+			sum += p
+			switch {
+			case math.IsNaN(p):
+				add(true, "final-transition", "nan", "Tf after SetFinalStates(%v): %v [Tr %v]", mo.Final, expM(tf), mo.Tr)
+			case mo.Final != nil && !inSet(mo.Final, j) && p != 0:
+				add(true, "final-transition", "mass-on-non-final-state", "Tf after SetFinalStates(%v): %v gives probability %.6g to a transition %d->%d into a non-final state [Tr %v]", mo.Final, expM(tf), p, i, j, mo.Tr)
+			}
+		}
+		if !math.IsNaN(sum) && math.Abs(sum-1) > 1e-6 {
+			add(true, "final-transition", "row-not-normalised", "Tf after SetFinalStates(%v): %v, row %d sums to %.12g [Tr %v]", mo.Final, expM(tf), i, sum, mo.Tr)
+		}
+	}
+	return nil
 }
 
 func elemType(elem string) ad.ScalarType {
@@ -73,14 +255,14 @@ func guard(f func() error) (err error) {
 }
 
 func buildGeneric(mo Model, elem string) (*libHmm, error) {
-	l := &libHmm{route: "generic", name: "generic.Hmm"}
+	l := &libHmm{route: "generic", name: "generic.Hmm" + kindSuffix(mo.Kind), tol: tolOf(mo)}
 	err := guard(func() error {
 		pi, tr := mkPiTr(mo, elemType(elem))
 		p, err := generic.NewHmmProbabilityVector(pi, false)
 		if err != nil {
 			return err
 		}
-		t, err := generic.NewHmmTransitionMatrix(tr, false)
+		t, err := newTransition(mo, tr)
 		if err != nil {
 			return err
 		}
@@ -88,13 +270,10 @@ func buildGeneric(mo Model, elem string) (*libHmm, error) {
 		if err != nil {
 			return err
 		}
-		if err := h.SetStartStates(mo.Start); err != nil {
-			return err
-		}
-		if err := h.SetFinalStates(mo.Final); err != nil {
-			return err
-		}
 		l.g = h
+		if err := l.configure(mo); err != nil {
+			return err
+		}
 		l.clone = h.Clone()
 		return nil
 	})
@@ -114,12 +293,13 @@ func scalarPdf(family string, par []float64) (st.ScalarPdf, error) {
 }
 
 func buildE2E(cs *Case) (*libHmm, error) {
-	l := &libHmm{route: cs.Route}
+	mo := cs.Model
+	l := &libHmm{route: cs.Route, tol: tolOf(mo)}
 	err := guard(func() error {
-		pi, tr := mkPiTr(cs.Model, elemType(cs.Elem))
+		pi, tr := mkPiTr(mo, elemType(cs.Elem))
 		switch cs.Route {
 		case "vector":
-			l.name = "vectorDistribution.Hmm[" + cs.Family + "]"
+			l.name = "vectorDistribution.Hmm" + kindSuffix(mo.Kind) + "[" + cs.Family + "]"
 			ed := make([]st.ScalarPdf, len(cs.Table))
 			for c := range ed {
 				d, err := scalarPdf(cs.Family, cs.Table[c])
@@ -128,20 +308,34 @@ func buildE2E(cs *Case) (*libHmm, error) {
 				}
 				ed[c] = d
 			}
-			h, err := vd.NewHmm(pi, tr, cs.Model.Map, ed)
-			if err != nil {
-				return err
-			}
-			if err := h.SetStartStates(cs.Model.Start); err != nil {
-				return err
-			}
-			if err := h.SetFinalStates(cs.Model.Final); err != nil {
-				return err
+			var h *vd.Hmm
+			switch mo.Kind {
+			case kindConstrained:
+				x, err := vd.NewConstrainedHmm(pi, tr, mo.Map, ed, libConstraints(mo.Constraints))
+				if err != nil {
+					return err
+				}
+				h = &x.Hmm
+			case kindHierarchical:
+				if mo.Tree == nil {
+					return fmt.Errorf("harness: hierarchical model without tree")
+				}
+				x, err := vd.NewHierarchicalHmm(pi, tr, mo.Map, ed, mo.Tree.lib())
+				if err != nil {
+					return err
+				}
+				h = &x.Hmm
+			default:
+				x, err := vd.NewHmm(pi, tr, mo.Map, ed)
+				if err != nil {
+					return err
+				}
+				h = x
 			}
 			l.v = h
 			l.g = &h.Hmm
 		case "matrix":
-			l.name = "matrixDistribution.Hmm[" + cs.Family + "]"
+			l.name = "matrixDistribution.Hmm" + kindSuffix(mo.Kind) + "[" + cs.Family + "]"
 			ed := make([]st.VectorPdf, len(cs.Table))
 			for c := range ed {
 				d, err := scalarPdf(cs.Family, cs.Table[c])
@@ -154,24 +348,51 @@ func buildE2E(cs *Case) (*libHmm, error) {
 				}
 				ed[c] = v
 			}
-			h, err := md.NewHmm(pi, tr, cs.Model.Map, ed)
-			if err != nil {
-				return err
-			}
-			if err := h.SetStartStates(cs.Model.Start); err != nil {
-				return err
-			}
-			if err := h.SetFinalStates(cs.Model.Final); err != nil {
-				return err
+			var h *md.Hmm
+			switch mo.Kind {
+			case kindConstrained:
+				x, err := md.NewConstrainedHmm(pi, tr, mo.Map, ed, libConstraints(mo.Constraints))
+				if err != nil {
+					return err
+				}
+				h = &x.Hmm
+			case kindHierarchical:
+				if mo.Tree == nil {
+					return fmt.Errorf("harness: hierarchical model without tree")
+				}
+				x, err := md.NewHierarchicalHmm(pi, tr, mo.Map, ed, mo.Tree.lib())
+				if err != nil {
+					return err
+				}
+				h = &x.Hmm
+			default:
+				x, err := md.NewHmm(pi, tr, mo.Map, ed)
+				if err != nil {
+					return err
+				}
+				h = x
 			}
 			l.m = h
 			l.g = &h.Hmm
 		default:
 			return fmt.Errorf("harness: unknown route %s", cs.Route)
 		}
-		return nil
+		// SetStartStates / SetFinalStates are promoted from the embedded generic.Hmm
+		return l.configure(mo)
 	})
 	return l, err
+}
+
+// reportDefects turns the observations of configure into violations (one coarse key per
+// kind of observation: they are properties of the object, not of a query)
+func reportDefects(c *vf.Ctx, l *libHmm, cs *Case, rk int64) {
+	mo := cs.Model
+	for _, d := range l.defects {
+		c0 := *cs
+		c0.Seq = nil
+		c.Violate(fmt.Sprintf("%s|model|%s|%s", l.name, d.quantity, d.what),
+			fmt.Sprintf("%s [pi=%v tr=%v constraints=%v tree=%v map=%v start=%v final=%v]", d.msg, mo.Pi, mo.Tr, mo.Constraints, mo.Tree, mo.Map, mo.Start, mo.Final), rk, AnyCase{Hmm: &c0})
+	}
 }
 
 func (l *libHmm) snapshot() string {
@@ -336,10 +557,12 @@ func runHmmCase(c *vf.Ctx, cs *Case, l *libHmm, sm *sem, postN int, idx int64) {
 	rk := rank(mo, n, idx)
 	ac := AnyCase{Hmm: cs}
 	viol := func(routine, quantity, wh, msg string) {
-		c.Violate(hkey(l.name+"."+routine, mo, quantity, wh), fmt.Sprintf("%s: %s [pi=%v tr=%v map=%v start=%v final=%v emission=%v x=%v]", routine, msg, mo.Pi, mo.Tr, mo.Map, mo.Start, mo.Final, cs.Table, cs.Seq), rk, ac)
+		c.Violate(hkey(l.name+"."+routine, mo, quantity, wh), fmt.Sprintf("%s: %s [pi=%v tr=%v map=%v start=%v final=%v emission=%v x=%v]", routine, msg, mo.Pi, mo.Tr, mo.Map, mo.Start, mo.Final, cs.Table, cs.Seq)+structNote(mo), rk, ac)
 	}
 	b := bruteForce(sm, emissions(cs))
 	q := l.queries(cs)
+	tol := l.tol
+	logOK := func(lib, want float64) bool { return logOKt(lib, want, tol) }
 	c.Eval(1)
 	if b.total > 0 && b.npos >= 2 {
 		c.Nontrivial(1)
@@ -459,7 +682,7 @@ func runHmmCase(c *vf.Ctx, cs *Case, l *libHmm, sm *sem, postN int, idx int64) {
 				return
 			}
 		}
-		if pp := b.pathProb(p); !(pp >= b.pmax*(1-1e-9)) {
+		if pp := b.pathProb(p); !(pp >= b.pmax*(1-10*tol)) {
 			w := "not-maximal"
 			if pp == 0 {
 				w = "zero-probability-path"
@@ -526,4 +749,14 @@ func errKind(e error) string {
 		return "panic"
 	}
 	return "error"
+}
+
+func structNote(mo Model) string {
+	switch mo.Kind {
+	case kindConstrained:
+		return fmt.Sprintf(" [constrained HMM, equality constraints %v]", mo.Constraints)
+	case kindHierarchical:
+		return fmt.Sprintf(" [hierarchical HMM, tree %v]", mo.Tree)
+	}
+	return ""
 }
